@@ -356,7 +356,7 @@ ares_status_t ares_dns_name_write(ares_buf_t *buf, ares_dns_namelist_t *list,
   size_t                   orig_name_len;
   size_t                   pos    = 0;
   ares_array_t            *labels = NULL;
-  char                     name_copy[512];
+  char                     name_copy[1024];
   ares_status_t            status;
 
   if (buf == NULL || name == NULL) {
@@ -369,7 +369,13 @@ ares_status_t ares_dns_name_write(ares_buf_t *buf, ares_dns_namelist_t *list,
   }
 
   /* NOTE: due to possible escaping, name_copy buffer is > 256 to allow for
-   *       this */
+   *       this.  Every octet may take up to 4 characters (\DDD), so the longest
+   *       valid name needs just over 1000.  Anything that doesn't fit can't be
+   *       valid, don't truncate it into something that might be. */
+  if (ares_strlen(name) >= sizeof(name_copy)) {
+    status = ARES_EBADNAME;
+    goto done;
+  }
   name_len      = ares_strcpy(name_copy, name, sizeof(name_copy));
   orig_name_len = name_len;
 
